@@ -399,10 +399,10 @@ def weight_sets(draw, with_unassigned):
     """A subset of the objective keywords with non-default dyadic values (a keyword left out keeps its default)."""
     choices = {
         "distance_weight": [2.0, 0.5, 0.0, 3.0],
-        "vehicle_weight": [50.0, 1.0, 10.0, 100.0, 0.5],
-        "tw_penalty": [1.0, 0.0, 10.0, 500.0],
+        "vehicle_weight": [50.0, 1.0, 10.0, 100.0, 0.5, 16384.0],
+        "tw_penalty": [1.0, 0.0, 10.0, 500.0, 1048576.0],
         "capacity_penalty": [1.0, 0.0, 10.0, 500.0],
-        "sync_penalty": [1.0, 0.0, 10.0, 500.0],
+        "sync_penalty": [1.0, 0.0, 1048576.0, 10.0, 500.0],  # 2^20: scores of 1e9..1e10, where a relative 1e-9 is ~1
     }
     if with_unassigned:
         choices["unassigned_penalty"] = [1.0, 0.0, 1000.0, 250.0]
@@ -426,12 +426,56 @@ def solve_cases(draw, tier="quick"):
         "as_tuples": draw(st.booleans()),
         "weights": weights,
         "seed": draw(st.integers(0, 2**31 - 1)),
-        "max_iter": draw(st.sampled_from([5, 50, 300])),
+        "max_iter": draw(st.sampled_from([5, 50, 300, 100])),
+        "progress": draw(progress_specs()),
     }
 
 
+@st.composite
+def progress_specs(draw):
+    """None = no callback; stop_at None = observer that never asks to stop; else the callback returns True from there on."""
+    kind = draw(st.sampled_from(["stop", "none", "observe", "stop", "none"]))
+    if kind == "none":
+        return None
+    interval = draw(st.sampled_from([1, 1, 2, 3, 5, 10, 25] + list(range(4, 25, 3))))
+    if kind == "observe":
+        return {"interval": interval, "stop_at": None}
+    return {"interval": interval, "stop_at": interval * draw(st.sampled_from([1, 2, 3, 1, 4, 6, 10]))}
+
+
+def solve_and_check(ctx, M, customers, vehicles, depot, kw, w, progress, where="solve_vrptw"):
+    """One solve_vrptw call: state invariant, then Result.objective against the recomputed weighted sum."""
+    from solvor.vrp import solve_vrptw
+
+    trace = []
+    kw = dict(kw)
+    if progress is not None:
+        stop_at = progress["stop_at"]
+
+        def on_progress(pr):
+            trace.append((pr.iteration, pr.objective if pr.best is None else pr.best))
+            return True if stop_at is not None and pr.iteration >= stop_at else None
+
+        kw["on_progress"] = on_progress
+        kw["progress_interval"] = progress["interval"]
+    res = ctx.call(solve_vrptw, customers, vehicles, depot, **kw)
+    state = res.solution
+    if not all(hasattr(state, a) for a in ("routes", "unassigned", "arrival_times")):
+        raise Violation(f"vrp:solution-not-a-state@{where}", repr(state)[:200])
+    info = check_state(M, state, where)
+    want, parts = M.objective(state.routes, state.unassigned, w)
+    got = res.objective
+    # Every term is continuous in the (verified) arrival times. The recomputation differs from the code only by float
+    # summation order: a few ulp of the total, i.e. <=1e-8 at 1e7 and <=1e-5 at 1e10. Hence an absolute 1e-6 plus 1e-12
+    # relative (1.1e-5 at 1e7, 1e-2 at 1e10) - tight enough to see a lost improvement of 5e-3 under a 1e7 penalty.
+    if not (isinstance(got, (int, float)) and abs(got - want) <= 1e-6 + 1e-12 * abs(want)):
+        detail = {"objective": got, "recomputed": want, "diff": got - want, "parts": parts, "routes": [list(r) for r in state.routes], "unassigned": sorted(state.unassigned), "seed": kw.get("seed"), "iterations": res.iterations}
+        raise Violation(f"vrp:objective@{where}", detail)
+    return res, info, parts, trace, want
+
+
 def run_vrptw_solve(desc, ctx):
-    from solvor.vrp import Vehicle, solve_vrptw
+    from solvor.vrp import Vehicle
 
     p = desc["problem"]
     M = Model(p)
@@ -463,13 +507,15 @@ def run_vrptw_solve(desc, ctx):
     ctx.label(f"max_iter-{desc['max_iter']}", "custom-weights" if desc["weights"] else "default-weights", "tuples" if desc["as_tuples"] else "Customer-objects", "fleet-as-" + desc["fleet_form"])
     ctx.nontrivial(bool(M.multi) and M.n >= 3 and len(M.caps) >= 2)
 
-    res = ctx.call(solve_vrptw, customers, vehicles, tuple(p["depot"]), **kw)
-    state = res.solution
-    if not all(hasattr(state, a) for a in ("routes", "unassigned", "arrival_times")):
-        raise Violation("vrp:solution-not-a-state@solve_vrptw", repr(state)[:200])
-    info = check_state(M, state, "solve_vrptw")
-    want, parts = M.objective(state.routes, state.unassigned, w)
+    progress = desc.get("progress")
+    ctx.label("no-callback" if progress is None else ("observer-callback" if progress["stop_at"] is None else "stop-callback"))
+    res, info, parts, trace, want = solve_and_check(ctx, M, customers, vehicles, tuple(p["depot"]), kw, w, progress)
+    stopped = bool(progress and progress["stop_at"] is not None and trace and trace[-1][0] >= progress["stop_at"])
     ctx.label(
+        stopped and "stopped-by-callback",
+        stopped and progress["interval"] == 1 and len(trace) >= 2 and trace[-1][1] < trace[-2][1] and "stop-iteration-was-a-new-best",
+        want >= 1e6 and "penalty-dominated(>=1e6)",
+        want >= 1e9 and "penalty-dominated(>=1e9)",
         parts["unassigned"] and "result-has-unassigned",
         parts["tw"] > 0 and "result-tw-violation",
         parts["sync"] > 0 and "result-sync-violation",
@@ -483,10 +529,69 @@ def run_vrptw_solve(desc, ctx):
         res.iterations < desc["max_iter"] and "stopped-before-max_iter",
     )
     ctx.size("longest_route", info["longest"])
-    got = res.objective
-    # all terms are continuous in the (verified) arrival times; see META for the tolerance
-    if not (isinstance(got, (int, float)) and abs(got - want) <= 1e-6 + 1e-12 * abs(want)):
-        raise Violation("vrp:objective@solve_vrptw", {"objective": got, "recomputed": want, "parts": parts, "routes": [list(r) for r in state.routes], "unassigned": sorted(state.unassigned)})
+
+
+# ============================================================================= vrptw_boundary (ALNS segment ends)
+@st.composite
+def boundary_cases(draw, tier="quick"):
+    """Instances on which ALNS keeps finding new incumbents for hundreds of iterations (measured: ~1 % of the iterations
+    around 100 bring a new best): 5-7 customers, most with a finite reachable window, several needing 2 vehicles of a
+    fleet of 2-3, unlimited capacity.  Each case is solved for several consecutive seeds with max_iter on or next to a
+    multiple of alns' segment_size=100, so that "new best exactly on a segment end" is reached on purpose."""
+    n = draw(st.sampled_from([6, 5, 7, 6, 7]))
+    k = draw(st.sampled_from([2, 3, 2]))
+    coord = st.integers(0, 8)
+    depot = [draw(coord), draw(coord)]
+    custs = []
+    for _ in range(n):
+        s = draw(st.integers(0, 24))
+        width = draw(st.sampled_from([2, 0, 1, 4, 6, 10, None]))
+        custs.append(
+            {
+                "x": draw(coord),
+                "y": draw(coord),
+                "demand": draw(st.integers(0, 3)),
+                "tw": [s, None if width is None else s + width],
+                "service": draw(st.sampled_from([0, 1, 2])),
+                "req": draw(st.sampled_from([2, 1, 2, 1, min(3, k)])),
+            }
+        )
+    return {
+        "problem": {"depot": depot, "customers": custs, "caps": [None] * k},
+        "max_iter": draw(st.sampled_from([100, 100, 100, 200, 101, 300])),
+        "seed": draw(st.integers(0, 2**31 - 1)),
+        "n_seeds": draw(st.integers(4, 8)),
+        "weights": draw(st.sampled_from([None, None, {"vehicle_weight": 50.0}, {"sync_penalty": 500.0, "tw_penalty": 10.0}])),
+    }
+
+
+def run_vrptw_boundary(desc, ctx):
+    from solvor.vrp import Vehicle
+
+    p = desc["problem"]
+    M = Model(p)
+    customers = _customers(p)
+    vehicles = [Vehicle(i, c) for i, c in enumerate(M.caps)]
+    w = dict(DEFAULT_W)
+    w.update(desc["weights"] or {})
+    ctx.label(f"max_iter-{desc['max_iter']}", "multi-vehicle-customer" if M.multi else "single-only", f"fleet-{len(M.caps)}")
+    ctx.size("customers", M.n)
+    ctx.nontrivial(bool(M.multi))
+    boundary_hits = late = 0
+    for i in range(desc["n_seeds"]):
+        kw = {"seed": desc["seed"] + i, "max_iter": desc["max_iter"], **(desc["weights"] or {})}
+        res, info, parts, trace, want = solve_and_check(ctx, M, customers, vehicles, tuple(p["depot"]), kw, w, {"interval": 1, "stop_at": None}, where="solve_vrptw")
+        ctx.count("solves")
+        best = [b for _, b in trace]
+        for it in range(100, len(best) + 1, 100):  # iteration `it` is best[it-1]
+            if best[it - 1] < best[it - 2]:
+                boundary_hits += 1
+                if it == len(best):
+                    ctx.count("new-best-on-the-final-segment-end")
+        late += sum(1 for j in range(50, len(best)) if best[j] < best[j - 1])
+    ctx.count("new-best-on-a-segment-end", boundary_hits)
+    ctx.count("new-best-after-iteration-50", late)
+    ctx.label(boundary_hits and "new-best-on-a-segment-end", late and "new-best-after-iteration-50")
 
 
 # ============================================================================= vrp_operators (histories)
@@ -650,5 +755,6 @@ def vrp_machine(ctx, tier):
 SUBS = [
     Sub("job_shop", run_job_shop, strategy=lambda tier: jobshops(tier), quick=1000, thorough=2500, workers_quick=4, wall_thorough=420.0),
     Sub("vrptw_solve", run_vrptw_solve, strategy=lambda tier: solve_cases(tier), quick=250, thorough=500, workers_quick=4, wall_quick=80.0, wall_thorough=420.0),
+    Sub("vrptw_boundary", run_vrptw_boundary, strategy=lambda tier: boundary_cases(tier), quick=110, thorough=500, workers_quick=4, wall_quick=80.0, wall_thorough=420.0),
     Sub("vrp_operators", run_vrp_history, machine=vrp_machine, quick=300, thorough=1000, wall_thorough=420.0, steps_quick=30, steps_thorough=30, workers_quick=4, wall_quick=80.0),
 ]
